@@ -180,11 +180,22 @@ fn long_sentence_cases() -> Vec<TrainCase> {
         let labels: Vec<u8> = (0..n - 1).map(|i| [1u8, 0, 0, 1, 2, 0, 1][(i + k) % 7]).collect();
         let dict = vec![chars[3..6].iter().collect::<String>(), chars[n - 4..].iter().collect::<String>()];
         out.push(TrainCase {
-            cfg: TrainCfg { charw: 3, charn: 3, typew: 2, typen: 3, dict, dictn: 2, solver: 1 },
-            corpus: vec![RefSentence { chars, labels, tags: vec![vec![]; n], n_tags: 0 }],
+            cfg: TrainCfg { charw: 3, charn: 3, typew: 2, typen: 3, dict: dict.clone(), dictn: 2, solver: 1 },
+            corpus: vec![RefSentence { chars: chars.clone(), labels: labels.clone(), tags: vec![vec![]; n], n_tags: 0 }],
             tag_dict: vec![],
             eval: vec![],
         });
+        // the sentences of up to 1,024 characters again under windows wider than 127 characters:
+        // relative positions of -255 .. 254 occur
+        if n <= 1024 {
+            let (cw, tw) = [(129u8, 2u8), (130, 128), (200, 255), (255, 129), (128, 130)][k % 5];
+            out.push(TrainCase {
+                cfg: TrainCfg { charw: cw, charn: 1 + (k % 2) as u8, typew: tw, typen: 1, dict, dictn: 2, solver: 1 },
+                corpus: vec![RefSentence { chars, labels, tags: vec![vec![]; n], n_tags: 0 }],
+                tag_dict: vec![],
+                eval: vec![],
+            });
+        }
     }
     out
 }
@@ -194,7 +205,8 @@ pub fn run(rep: &mut Report) {
         "long-sentences",
         "deterministic sentences of 255, 256, 257, 258, 259, 511, 512, 513, 1,024 and 70,000 \
 characters (lengths around multiples of 256 and beyond 65,535) with partial annotation and \
-dictionary words at the start region and at the very end; same oracle",
+dictionary words at the start region and at the very end, each of those up to 1,024 characters \
+also under windows of 128 .. 255 characters / types; same oracle",
         false,
         long_sentence_cases().into_iter(),
         |c: &TrainCase| test_case(c).map(|mut i| { i.nontrivial = true; i }),
